@@ -310,6 +310,37 @@ theorem stable_ite_eq {α : Type} {c : Prop} [Decidable c] {p p' : P α}
 theorem stable_of_eq {α : Type} {p : P α} (h : StableR Eq p p) : Stable p := h
 theorem stable_to_eq {α : Type} {p : P α} (h : Stable p) : StableR Eq p p := h
 
+/-- what a successful reader left is a suffix of what it was given -/
+theorem StableR.suffix {α β : Type} {R : α → β → Prop} {p : P α} {q : P β} (h : StableR R p q)
+    {bs : Bytes} {a : α} {rest : Bytes} (hp : p bs = .ok (a, rest)) : ∃ pre, bs = pre ++ rest :=
+  let ⟨_, pre, e, _⟩ := h bs a rest hp; ⟨pre, e⟩
+
+theorem StableR.same {α β : Type} {R : α → β → Prop} {p : P α} {q : P β} (h : StableR R p q)
+    {bs : Bytes} {a : α} {rest : Bytes} (hp : p bs = .ok (a, rest)) : ∃ b, q bs = .ok (b, rest) ∧ R a b :=
+  (h bs a rest hp).1
+
+theorem StableR.local {α β : Type} {R : α → β → Prop} {p : P α} {q : P β} (h : StableR R p q)
+    {bs : Bytes} {a : α} {rest : Bytes} (hp : p bs = .ok (a, rest)) (hne : rest ≠ []) :
+    ∃ pre, bs = pre ++ rest ∧ ∀ rest', ∃ b, q (pre ++ rest') = .ok (b, rest') ∧ R a b :=
+  let ⟨_, pre, e, k⟩ := h bs a rest hp; ⟨pre, e, k hne⟩
+
+theorem Stable.suffix {α : Type} {p : P α} (h : Stable p) {bs : Bytes} {a : α} {rest : Bytes}
+    (hp : p bs = .ok (a, rest)) : ∃ pre, bs = pre ++ rest := StableR.suffix h hp
+
+theorem Stable.local {α : Type} {p : P α} (h : Stable p) {bs : Bytes} {a : α} {rest : Bytes}
+    (hp : p bs = .ok (a, rest)) (hne : rest ≠ []) :
+    ∃ pre, bs = pre ++ rest ∧ ∀ rest', p (pre ++ rest') = .ok (a, rest') := by
+  obtain ⟨pre, e, k⟩ := StableR.local h hp hne
+  refine ⟨pre, e, fun rest' => ?_⟩
+  obtain ⟨b, hq, hab⟩ := k rest'
+  subst hab; exact hq
+
+theorem StableR.intro {α β : Type} {R : α → β → Prop} {p : P α} {q : P β}
+    (h : ∀ bs a rest, p bs = .ok (a, rest) →
+      (∃ b, q bs = .ok (b, rest) ∧ R a b) ∧
+      ∃ pre, bs = pre ++ rest ∧ (rest ≠ [] → ∀ rest', ∃ b, q (pre ++ rest') = .ok (b, rest') ∧ R a b)) :
+    StableR R p q := h
+
 /-! From here on stability is used through the lemmas above only. -/
 attribute [irreducible] Stable StableR
 
